@@ -113,4 +113,94 @@ theorem C11_view_snapshot (t : Tx) (prog : List Op) (h : t.writable = false) :
     (runOps t prog).1.work = t.work :=
   (runOps_readonly t prog h).1
 
+/-- **Every mutator inside a read-only transaction is refused** with `ErrTxNotWritable` (bbolt's own unconverted
+sentinel for `SetSequence`/`NextSequence`, which skip `convertErr`), whatever its arguments, as soon as its target
+resolves; and `Commit` on a read transaction is refused too. -/
+theorem C11_readonly_refuses (t : Tx) (op : Op) (hro : t.writable = false) (hopen : t.closed = false)
+    (hmg : t.managed = false) (hm : op.isMutator = true) :
+    (step t op).2 =
+      match op with
+      | .curDelete i => if (t.cursors.lookup i).isSome then .err .txNotWritable else .noCursor
+      | .commit => .err .txNotWritable
+      | _ => match op.bucket? with
+        | some p => if isBucket t.work p then op.readOnlyAnswer else .noBucket
+        | none => .ok :=
+  readonly_refuses t op hro hopen hm hmg
+
+example : (step (Kind.view.begin ((({} : DB).insert [[1]] (.bucket 0)))) (.put [[1]] [2] [3])).2
+    = .err .txNotWritable := by
+  rw [C11_readonly_refuses _ _ rfl rfl rfl rfl]
+  simp [Op.bucket?, Op.readOnlyAnswer, isBucket]
+
+/-! ## reads see the transaction's own writes -/
+
+/-- **Read your writes.**  After a `Put` that answered nil, `Get` on the same bucket and key in the same transaction
+returns the value, a cursor / `ForEach` over the bucket shows it, and this stays so across any further calls that
+do not write that entry (nor delete a bucket above it). -/
+theorem C11_read_your_writes (t : Tx) (p : Path) (k v : Bytes) (h : (step t (.put p k v)).2 = .ok) :
+    let t' := (step t (.put p k v)).1
+    (step t' (.get p k)).2 = .val (some v) ∧
+    (k, some v) ∈ view t'.work p ∧
+    (∀ mid, Untouched (p ++ [k]) t' mid →
+      getVal (runOps t' mid).1.work p k = some v ∧ (k, some v) ∈ view (runOps t' mid).1.work p) := by
+  obtain ⟨_, _, hb, hw, hc⟩ := step_put_ok h
+  have hget : ∀ d : DB, d[p ++ [k]]? = some (.val v) → getVal d p k = some v ∧ (k, some v) ∈ view d p := by
+    intro d hd
+    exact ⟨by simp [getVal, hd], mem_view.mpr ⟨_, hd, rfl⟩⟩
+  have h0 : (step t (.put p k v)).1.work[p ++ [k]]? = some (.val v) := by rw [hw, get_insert, if_pos rfl]
+  refine ⟨?_, (hget _ h0).2, ?_⟩
+  · rw [step_get_open _ _ _ hc (by rw [hw, isBucket_insert_child]; exact hb), (hget _ h0).1]
+  · intro mid hmid
+    exact hget _ ((runOps_untouched _ _ _ hmid).trans h0)
+
+/-- …and after a `Delete` that answered nil the key is gone for the same transaction. -/
+theorem C11_read_your_deletes (t : Tx) (p : Path) (k : Bytes) (h : (step t (.delete p k)).2 = .ok) :
+    let t' := (step t (.delete p k)).1
+    (step t' (.get p k)).2 = .val none ∧
+    (∀ s, (k, s) ∉ view t'.work p) ∧
+    (∀ mid, Untouched (p ++ [k]) t' mid → getVal (runOps t' mid).1.work p k = none) := by
+  obtain ⟨_, _, hb, hw, hc⟩ := step_delete_ok h
+  have h0 : (step t (.delete p k)).1.work[p ++ [k]]? = none := by rw [hw, get_erase, if_pos rfl]
+  refine ⟨?_, ?_, ?_⟩
+  · rw [step_get_open _ _ _ hc (by rw [hw, isBucket_erase_child]; exact hb)]
+    simp [getVal, h0]
+  · intro s hs
+    obtain ⟨e, he, _⟩ := mem_view.mp hs
+    rw [h0] at he; cases he
+  · intro mid hmid
+    simp [getVal, (runOps_untouched _ _ _ hmid).trans h0]
+
+/-- **Frame.**  A call changes nothing but its footprint: the one entry `bucket ++ [key]` for
+`Put`/`Delete`/`CreateBucket*`/cursor `Delete`, the bucket's own header for the sequence calls, the subtree for
+`DeleteNestedBucket`; reads, cursor moves, `Commit`, `Rollback`, `OnCommit` change no entry at all. -/
+theorem C11_frame (t : Tx) (op : Op) (q : Path) (h : ¬ footprint t op q) :
+    (step t op).1.work[q]? = t.work[q]? :=
+  step_frame t op q h
+
+/-! ## nested buckets are independent namespaces -/
+
+/-- **Independence.**  A call made on bucket `p` (directly or through a cursor over `p`) changes no read under a
+bucket `Q` that is neither `p` nor below `p`: `Get` of every key, the cursor/`ForEach` view, the sequence number
+and the existence of `Q` are all unchanged.  In particular sibling buckets, and parents, are unaffected. -/
+theorem C11_buckets_independent (t : Tx) (op : Op) (p Q : Path)
+    (hp : callBucket t op = some p) (hQ : ¬ p <+: Q) :
+    SameUnder Q t.work (step t op).1.work :=
+  step_independent t op Q (fun p' hp' => by rw [hp] at hp'; cases hp'; exact hQ)
+
+/-- The same for whole programs: if every writing call is made outside `Q`'s ancestry line, nothing under `Q` moves. -/
+theorem C11_buckets_independent_prog (t : Tx) (prog : List Op) (Q : Path) (h : Outside Q t prog) :
+    SameUnder Q t.work (runOps t prog).1.work :=
+  runOps_independent Q t prog h
+
+/-- `Put`/`Delete` into `p` do not even disturb the buckets *below* `p` (only `DeleteNestedBucket` reaches down). -/
+theorem C11_put_local (t : Tx) (p : Path) (k v : Bytes) (Q : Path) (hQ : Q ≠ p) :
+    (∀ k', getVal (step t (.put p k v)).1.work Q k' = getVal t.work Q k') ∧
+    view (step t (.put p k v)).1.work Q = view t.work Q := by
+  have hf : ∀ k', ¬ footprint t (.put p k v) (Q ++ [k']) := by
+    intro k' hf
+    simp only [footprint] at hf
+    exact hQ (append_singleton_inj.mp hf).1
+  refine ⟨fun k' => ?_, view_ext (fun k' => by rw [step_frame _ _ _ (hf k')])⟩
+  simp only [getVal, step_frame _ _ _ (hf k')]
+
 end KV
